@@ -189,6 +189,8 @@ Faults(T, env, f) ==
   CASE T.t \in {"prim", "lit", "tpl", "sfmt", "nfmt", "ta"} -> Bad1(T, env, f)
     [] T.t = "arr"   -> {VArr(<<x>>) : x \in Faults(T.e, env, f)}
                         \cup {VArr(<<m, x>>) : m \in Mem1(T.e, env, f), x \in Faults(T.e, env, f)}
+                        \* a sparse array: the missing index reads as undefined, which the element type rejects
+                        \cup (IF M3(VUndef, T.e, env, {}, FALSE) = "F" THEN {VArr(<<m, VHole, m>>) : m \in Mem1(T.e, env, f)} \cup {VArr(<<VHole>>)} ELSE {})
     [] T.t = "tuple" -> LET n == Len(T.es)
                             base == IF \A i \in 1..n : Mem1(T.es[i], env, f) # {}
                                     THEN {[i \in 1..n |-> CHOOSE m \in Mem1(T.es[i], env, f) : TRUE]} ELSE {}
